@@ -8,6 +8,8 @@ package c16
 
 import (
 	"context"
+	"crypto/x509/pkix"
+	"encoding/asn1"
 	"errors"
 	"fmt"
 	"io"
@@ -19,6 +21,7 @@ import (
 
 	ct "github.com/google/certificate-transparency-go"
 	"github.com/google/certificate-transparency-go/jsonclient"
+	"github.com/google/certificate-transparency-go/x509"
 	"google.golang.org/grpc/codes"
 	"google.golang.org/grpc/status"
 	"k8s.io/klog/v2"
@@ -40,6 +43,12 @@ const MaxN = 16
 type Entry struct {
 	Leaf    ct.LeafEntry
 	Precert bool
+	// Class: how the (pre-)certificate inside the entry parses.
+	//   clean    - without complaint
+	//   nonfatal - the repository's parser yields the certificate together with non-fatal errors only (a 3-byte
+	//              iPAddress in the SAN, an empty AuthorityInfoAccess): such entries are matched like any other
+	//   fatal    - not a certificate at all (truncated DER): a Matcher-type matcher never gets to see it, a LeafMatcher does
+	Class string
 	CN      string
 	TS      uint64
 	DER     []byte // the (pre-)certificate as submitted
@@ -50,19 +59,40 @@ type World struct {
 	Entries []Entry
 }
 
-// NewWorld builds MaxN entries: real X.509 / precertificate entries (leaf_input and extra_data encoded by harness/ref).
+var (
+	oidSAN = asn1.ObjectIdentifier{2, 5, 29, 17}
+	oidAIA = asn1.ObjectIdentifier{1, 3, 6, 1, 5, 5, 7, 1, 1}
+)
+
+// NewWorld builds MaxN entries: real X.509 / precertificate entries (leaf_input and extra_data encoded by harness/ref)
+// of the three parse classes.
 func NewWorld(rng *rand.Rand) *World {
 	root := pki.NewRoot(pki.Opts{CN: "c16 root"})
 	w := &World{}
+	pattern := []string{"clean", "nonfatal", "clean", "nonfatal", "fatal"}
+	off := rng.Intn(len(pattern))
+	flip := rng.Intn(2)
+	perClass := map[string]int{}
 	for i := 0; i < MaxN; i++ {
 		fam := "alpha"
 		if rng.Intn(3) == 0 {
 			fam = "beta"
 		}
-		e := Entry{Precert: rng.Intn(2) == 0, CN: fmt.Sprintf("h%d.%s.test", i, fam), TS: uint64(1700000000000 + i*1000)}
+		class := pattern[(i+off)%len(pattern)]
+		perClass[class]++ // kinds alternate within a class, so every (class, kind) pair occurs
+		e := Entry{Precert: (perClass[class]+flip)%2 == 0, CN: fmt.Sprintf("h%d.%s.test", i, fam), TS: uint64(1700000000000 + i*1000),
+			Class: class}
 		o := pki.Opts{CN: e.CN, DNS: []string{e.CN}}
 		if e.Precert {
 			o.Poison = "ok"
+		}
+		if e.Class == "nonfatal" {
+			o.Unparsable = true
+			if rng.Intn(2) == 0 {
+				o.Extra = []pkix.Extension{{Id: oidSAN, Value: []byte{0x30, 0x05, 0x87, 0x03, 1, 2, 3}}} // iPAddress of 3 bytes
+			} else {
+				o.Extra = []pkix.Extension{{Id: oidAIA, Value: []byte{0x30, 0x00}}} // empty AuthorityInfoAccess
+			}
 		}
 		leaf := root.Issue(o)
 		e.DER = leaf.DER
@@ -73,6 +103,16 @@ func NewWorld(rng *rand.Rand) *World {
 		if (ent.Type == ref.PrecertEntry) != e.Precert {
 			panic("entry type")
 		}
+		if e.Class == "fatal" {
+			// the logged (pre-)certificate is cut in the middle; the TLS structures around it are intact
+			e.CN = ""
+			if e.Precert {
+				ent.TBS = ent.TBS[:len(ent.TBS)/2]
+			} else {
+				ent.Cert = ent.Cert[:len(ent.Cert)/2]
+				e.DER = ent.Cert
+			}
+		}
 		e.Leaf.LeafInput = ref.MerkleTreeLeaf(e.TS, ent, nil)
 		if e.Precert {
 			e.Leaf.ExtraData = ref.PrecertChainEntry(leaf.DER, root.DER)
@@ -82,6 +122,26 @@ func NewWorld(rng *rand.Rand) *World {
 		w.Entries = append(w.Entries, e)
 	}
 	return w
+}
+
+// CheckClasses confirms the precondition the classes rest on (an input check, not an oracle): the repository's parser
+// accepts the clean entries silently, yields the nonfatal ones with non-fatal errors only, refuses the fatal ones.
+func (w *World) CheckClasses() error {
+	for i := range w.Entries {
+		e := &w.Entries[i]
+		le, err := ct.LogEntryFromLeaf(int64(i), &e.Leaf)
+		got := "clean"
+		switch {
+		case le == nil || x509.IsFatal(err):
+			got = "fatal"
+		case err != nil:
+			got = "nonfatal"
+		}
+		if got != e.Class {
+			return fmt.Errorf("entry %d (precert=%v) was built as %s but parses as %s: %v", i, e.Precert, e.Class, got, err)
+		}
+	}
+	return nil
 }
 
 // Reply is one scripted answer to get-entries: N entries (clipped to what was asked), or an error class.
